@@ -77,7 +77,7 @@ func c20Run(t *testing.T, in c20Input) (obs map[string]interface{}, extra map[st
 		a2.Commit()
 	})
 	obs = map[string]interface{}{"h": exp1.Height, "t": importTime.UnixMilli()}
-	extra = map[string]interface{}{"failed_ops": w.failed, "blocks": a1.LastBlockHeight()}
+	extra = map[string]interface{}{"failed_ops": w.failed, "blocks": a1.LastBlockHeight(), "strings": stringClasses(ctx1, a1)}
 	e1, canon1 := parseExport(exp1.AppState, a1.AppCodec(), r)
 	if importPanic != "" {
 		// the export cannot be imported at all: reported as a violation by the checker
@@ -212,7 +212,7 @@ func genC20Case(r *Rng) c20Input {
 		case 16:
 			add("or_alloc", r.Intn(50), r.Intn(4), 0)
 		case 17:
-			add("or_params", r.Intn(31), 0, 0)
+			add("or_params", r.Intn(63), 0, 0)
 		}
 	}
 	nseg := r.Range(4, 10)
@@ -278,13 +278,21 @@ func genC20Case(r *Rng) c20Input {
 				add("epoch", r.Intn(3), 0, 0)
 			}
 		case 6: // a full oracle round: some validators vote, the rest collect a miss counter; rates are set
+			if r.Chance(1, 2) { // first change the whitelist (mixed-case / IBC pairs) and let it come into force
+				add("or_params", r.Intn(63), 0, 0)
+				add("or_tally", 0, 0, 0)
+			}
 			m := 1 + r.Intn(7)
 			add("or_prevote", m, r.Intn(9), 0)
 			add("or_vote", m&(1+r.Intn(7)), 0, 0)
 			add("or_tally", 0, 0, 0)
 		case 7: // votes / prevotes left pending (sometimes with a whitelist edit that is not yet in force)
-			if r.Chance(1, 3) {
-				add("or_params", r.Intn(31), 0, 0)
+			switch r.Intn(3) {
+			case 0:
+				add("or_params", r.Intn(63), 0, 0) // edit not yet in force at export time
+			case 1:
+				add("or_params", r.Intn(63), 0, 0)
+				add("or_tally", 0, 0, 0) // in force: the pending votes are about the edited (mixed-case / IBC) pairs
 			}
 			m := 1 + r.Intn(7)
 			add("or_prevote", m, r.Intn(9), 0)
@@ -370,8 +378,17 @@ func c20Openers() []c20Input {
 		{K: "or_prevote", A: 7, B: 1}, {K: "or_vote", A: 7}, {K: "or_tally"}, // all vote the same (equal) rates through the one feeder
 		{K: "or_prevote", A: 7, B: 3}, {K: "or_vote", A: 6}, // two votes and one prevote pending, same feeder
 	}
+	strs := []c20Op{
+		{K: "or_params", A: 6}, {K: "or_tally"}, // whitelist := {ubtc, ibc/HEX…, uATOM}:uusd, in force after the period end
+		{K: "or_prevote", A: 7, B: 2}, {K: "or_vote", A: 7}, {K: "or_tally"}, // prices for the first two (ibc/…, uATOM)
+		{K: "or_prevote", A: 3, B: 4}, {K: "or_vote", A: 1}, // a vote and a prevote pending
+		{K: "tf_create", A: 0, B: 1}, {K: "tf_create", A: 0, B: 2}, {K: "tf_create", A: 1, B: 3}, {K: "tf_md", A: 1, B: 3},
+		{K: "ftcoin", A: 0}, {K: "ftcoin", A: 0}, {K: "ftcoin", A: 1, B: 1}, // FunTokens of ucoin0, ibc/HEX and a mixed-case tf denom
+		{K: "convert", A: 1, B: 5, C: 0}, {K: "epoch", A: 0},
+	}
 	return []c20Input{
 		{Ops: full, Dt: 3600},
+		{Ops: strs, Dt: 4242},
 		{Ops: shared, Dt: 777},
 		{Ops: []c20Op{{K: "or_alloc", A: 3, B: 2}, {K: "or_alloc", A: 5, B: 3}}, Dt: 10},
 		{Ops: []c20Op{{K: "tf_create", A: 0, B: 0}, {K: "tf_md", A: 0, B: 2}}, Dt: 10},
